@@ -211,6 +211,14 @@ def run_C16(w):
             sel = combos if (w.tier == 'thorough' or pi < 2) else rng.sample(combos, 3)
             for fl in sel:
                 inputs.append({'kind': 'cli', 'source_kind': kind, 'src': text, 'flags': fl})
+    # -e takes an *expression*: `linesep` and the builtins must be usable anywhere in it, also inside generator
+    # expressions, comprehensions and lambdas, whose bodies look names up in the globals (seeded change C16-r6)
+    EXPRS = ["'a = 1' + linesep + 'b = 2'", "linesep.join(['x = 1', 'y = 2'])", "''.join(s + linesep for s in ['a = 1', 'b = 2'])",
+             "(lambda: 'x = 1' + linesep)()", "[l + linesep for l in ['p = 1']][0]", "'x = %d' % len('abc')", "chr(120) + ' = 1'",
+             "str.join(linesep, map(str, ['a = 1', 'b = a']))", "{k: 'v = 1' + linesep for k in 'k'}['k']", "'def f():' + linesep + '    return 1' + linesep"]
+    for ei, ex in enumerate(EXPRS):
+        for fl in (combos if w.tier == 'thorough' else rng.sample(combos, 2)):
+            inputs.append({'kind': 'cli', 'source_kind': 'e', 'src': ex, 'flags': fl})
     # usage: every subset of the four sources, with empty and non-empty values
     for n in range(5):
         for srcs in itertools.combinations(['file', 'c', 'm', 'e'], n):
